@@ -195,7 +195,22 @@ CLAIMED["C04"] = dict(
     design="§5 C04, §7", technique="Lean 4 inductive invariant over a heap with reference counting + trace acceptance + monitors",
     note="Same trusted base as C03.")
 
-PENDING = {"C15": "the model (M2 Composite), its tie to signals.py and a monitor for pending OR hooks exist, but the invariant that every hook is covered by a registered, pending or running cleanup is not proved yet; no proof is claimed until the theorem exists (DESIGN.md section 10)"}
+CLAIMED["C15"] = dict(
+    text="Lean 4 theorems over every reachable state of the heap model M2 (any number of threads, nested and shared operands, "
+         "dropping references, the reference-count collector with the OrSignal weak-reference callback, triggering operands and "
+         "composites, wait(till=), every interleaving at the granularity of one Signal operation, including an operand triggered "
+         "while a composite is being wired or is detaching): at every quiescent point a hook of an OrSignal in a signal's callback "
+         "list belongs to a composite that is alive, untriggered and built on that signal, with its own cleanup registered; each "
+         "hook occurs at most once per OrSignal and operand position (so the hooks on a signal are bounded by the live untriggered "
+         "composites built on it); a triggered or dead signal holds no callbacks; also mid-operation every hook is covered by a "
+         "cleanup that is still to be registered, registered, queued or removing it, and a queued removal is effective.",
+    design="§5 C15", technique="Lean 4 inductive invariant (token counting over per-thread pending actions, ordering of the three registrations of OrSignal.__init__) + trace acceptance with state observation of the real operators under CPython refcounting + monitor",
+    note="Trusted: Lean kernel + standard axioms; model Composite.lean tied to signals.py by trace acceptance (every then/go/"
+         "remove_then/callback/object death, job-list length of every live signal after each operation); then/go/remove_then "
+         "atomic (C01/C02 on M1); CPython reference counting and weak-reference callbacks are assumptions; gc disabled (a cyclic "
+         "collection could free objects earlier than the model does, never later).")
+
+PENDING = {}
 
 
 def main():
